@@ -161,6 +161,11 @@ def f_ct_param_quote(m):
     m["ctype"] = b'Content-Type: text/plain; charset="us-ascii"; name="a \\"quoted\\" name.txt"'
 
 
+def f_ct_param_spaces(m):
+    m["ctype"] = b'Content-Type: application/octet-stream; name="a  b .txt"'
+    m["extra"].append(("Content-Disposition", b'attachment; filename=" lead  and trail "'))
+
+
 def f_ct_param_2231(m):
     m["ctype"] = b"Content-Type: application/octet-stream; name*=utf-8''na%C3%AFve%20file.bin"
     m["extra"].append(("Content-Disposition", b"attachment; filename*0=\"part\"; filename*1=\"ed.txt\""))
